@@ -203,10 +203,15 @@ def _generate_donor(seed: int, tier: str) -> dict:
             o["s"] = s
         program += ops
         if s in noisy:
-            for kind in rf.sample(["add_column_new", "open_hook"], rf.choice([1, 1, 2])):
+            for kind in rf.sample(["add_column_new", "open_hook", "edit_prices", "read_helpers"], rf.choice([1, 1, 2])):
                 m = rf.choice(names)
                 b = rf.randint(-1, nb - 1)
-                if kind == "add_column_new":
+                if kind == "edit_prices":
+                    program.append({"s": s, "bar": b, "phase": "initialize" if b == -1 else "before_bar", "m": None, "op": "c19.edit_prices",
+                                    "a": {"col": rf.randint(0, 3), "row": rf.randint(0, 40), "scale": rf.choice(["3", "0.5"])}})
+                elif kind == "read_helpers":
+                    program.append({"s": s, "bar": b, "phase": "initialize" if b == -1 else "on_bar", "m": None, "op": "c19.read_helpers", "a": {}})
+                elif kind == "add_column_new":
                     program.append({"s": s, "bar": b, "phase": "initialize" if b == -1 else "on_bar", "m": m, "op": "c19.add_column",
                                     "a": {"name": rf.choice(["sma", "my_signal"]), "mode": "generic", "win": rf.randint(2, 5), "by": rf.choice(["market", "key"])}})
                 else:
@@ -262,7 +267,7 @@ def _gen_program(rp, s, markets, nb, close_idx, lazy=False):
 def _gen_noise(rf, s, markets, nb, close_idx):
     """A noisy neighbour: leaves a position open at the end, mutates what the public API lets it reach."""
     out = []
-    kinds = rf.sample(["leave_open", "add_column_new", "add_column_overwrite", "open_hook"], rf.choice([1, 2, 2, 3]))
+    kinds = rf.sample(["leave_open", "add_column_new", "add_column_overwrite", "open_hook", "edit_prices", "read_helpers"], rf.choice([1, 2, 2, 3]))
     for kind in kinds:
         mw = rf.choice(markets)
         sp = U.spacing_of(mw["fee"])
@@ -280,6 +285,13 @@ def _gen_noise(rf, s, markets, nb, close_idx):
             b = rf.choice([-1, rf.randint(0, nb - 1)])
             out.append({"s": s, "bar": b, "phase": "initialize" if b == -1 else "before_bar", "m": mw["name"], "op": "c19.add_column",
                         "a": {"name": rf.choice(["inAmount0", "inAmount1", "currentLiquidity"]), "mode": "overwrite", "scale": rf.choice(["3", "0.25", "10"]), "by": rf.choice(["market", "key"])}})
+        elif kind == "edit_prices":
+            b = rf.choice([-1, -1, rf.randint(0, nb - 1)])
+            out.append({"s": s, "bar": b, "phase": "initialize" if b == -1 else "before_bar", "m": None, "op": "c19.edit_prices",
+                        "a": {"col": rf.randint(0, 3), "row": rf.randint(0, 40), "scale": rf.choice(["3", "0.5"])}})
+        elif kind == "read_helpers":
+            b = rf.randint(-1, nb - 1)
+            out.append({"s": s, "bar": b, "phase": "initialize" if b == -1 else rf.choice(["before_bar", "on_bar"]), "m": None, "op": "c19.read_helpers", "a": {}})
         else:
             b = rf.randint(-1, nb - 1)
             out.append({"s": s, "bar": b, "phase": "initialize" if b == -1 else "on_bar", "m": mw["name"], "op": "c19.set_open_hook",
@@ -521,6 +533,39 @@ def _add_column(sim, m, a):
             series = df[name].map(lambda x: x * (scale if isinstance(x, Decimal) else float(scale)))
         stg.add_column(m if a.get("by") == "market" else m.market_info, name, series)
         return [name, mode]
+
+    return call
+
+
+@op("c19.edit_prices")
+def _edit_prices(sim, m, a):
+    """a what-if strategy edits ITS OWN price table (the actuator's token prices of this run): a helper column and a shock"""
+    stg = sim.strategy
+
+    def call():
+        tp = stg.actuator.token_prices
+        cols = [c for c in tp.columns if str(c) != "USD"]
+        col = cols[int(a.get("col", 0)) % len(cols)]
+        j = int(a.get("row", 0)) % len(tp.index)
+        tp["MY_HELPER"] = 1
+        tp.loc[tp.index[j]:, col] = tp.loc[tp.index[j]:, col] * D(a.get("scale", "3"))
+        return [str(col), j]
+
+    return call
+
+
+@op("c19.read_helpers")
+def _read_helpers(sim, m, a):
+    """read-only helper functions a strategy may call for its own decisions (module level, no market state involved)"""
+
+    def call():
+        from demeter.uniswap.helper import get_greeks
+
+        out = []
+        for P, L, H in ((Decimal(2000), Decimal(1000), Decimal(1500)), (Decimal(900), Decimal(1000), Decimal(1500)), (Decimal(1200), Decimal(1000), Decimal(1500))):
+            g = get_greeks(P, L, H)
+            out.append([g.delta, g.gamma])
+        return out
 
     return call
 
